@@ -258,16 +258,34 @@ def derived(ix, R):
             why.append('derived values are not zipped with their names')
     # partition of the samples over the ranks and restoration of the sample order after the gather
     why6 = []
-    # values go to list 0 and weights to list 1 of each parameter's pair, and those are what is gathered
+    # values go to one member and weights to the other member of each parameter's pair (a position of a tuple / list or
+    # a named field), and those members are what is gathered
+    def member(rf_):
+        a__ = atom_of(fl, rf_) if rf_ is not None else None
+        if a__ is not None and a__.head == 'idx' and isinstance(a__.args[1], RF) and a__.args[1].const() is not None:
+            return ('item', int(a__.args[1].const()))
+        if a__ is not None and a__.head == 'getattr' and isinstance(a__.args[1], str):
+            return ('field', a__.args[1])
+        return None
+    slot_v = slot_w = None
     if len(apps) == 2:
         W_ = spec(fl, 'self.get_weights(S)', param_env(fl, f, ['S']))
         sl_ = apps[0].loops[0]
         for a_ in apps:
             isw = fl.tab.equal(a_.args[0], fl.tab.atom('idx', (W_, sl_.index)))
-            ra_ = atom_of(fl, a_.recv_rf) if a_.recv_rf is not None else None
-            slot = ra_.args[1].const() if ra_ is not None and ra_.head == 'idx' and isinstance(ra_.args[1], RF) else None
-            if slot != (1 if isw else 0):
-                why6.append('%s appended to list %s of the pair' % ('weight' if isw else 'value', slot))
+            m_ = member(a_.recv_rf)
+            if m_ is None:
+                raise AnalysisError('the list a sample is appended to is not a member of a pair: %s' % unparse(a_.node)[:80])
+            if isw:
+                slot_w = m_
+            else:
+                slot_v = m_
+        if slot_v is not None and slot_v == slot_w:
+            why6.append('value and weight are appended to the same list of the pair (%s)' % (slot_v,))
+        # (the reviewed layout is (values, weights): with positional members a swap is visible where the pair is unpacked)
+        if slot_v is not None and slot_w is not None and slot_v[0] == 'item' and slot_w[0] == 'item' and slot_v != slot_w and \
+                (slot_v[1], slot_w[1]) != (0, 1):
+            why6.append('value appended to list %s and weight to list %s of the pair' % (slot_v[1], slot_w[1]))
     if len(apps) == 2:
         sl = apps[0].loops[0]
         ra = [fmt(fl, x) for x in (sl.range_args or [])]
@@ -283,12 +301,14 @@ def derived(ix, R):
             for a_ in e.value.all_atoms():
                 at_ = fl.tab.atoms[a_]
                 if at_.head == 'call' and at_.extra and 'allreduce' in at_.extra[0] and at_.args:
-                    src = atom_of(fl, at_.args[0])
-                    if src is not None and src.head == 'idx' and isinstance(src.args[1], RF) and src.args[1].const() in (0, 1):
-                        G.setdefault(int(src.args[1].const()), e.value)
+                    m_ = member(at_.args[0])
+                    if m_ is not None and m_ == slot_v:
+                        G.setdefault(0, e.value)
+                    elif m_ is not None and m_ == slot_w:
+                        G.setdefault(1, e.value)
     for k_, nm_ in ((0, 'trace'), (1, 'weights')):
         if k_ not in G:
-            why6.append('the gathered %s is not list %d of the pair' % (nm_, k_))
+            why6.append('the gathered %s is not the list the %s were appended to' % (nm_, 'values' if k_ == 0 else 'weights'))
 
     def unarray(x):
         while x is not None:
